@@ -1,11 +1,17 @@
 /-
 C12 — serialising a graph and reading it back gives an equal graph, with nothing lost.
 Property theorems `c12_*`; helper lemmas in `namespace Aux`.
-Model: EkwVerif/Model/Export.lean (graph/export.py after the C12 `fix:` commit).
+Model: EkwVerif/Model/Export.lean (graph/export.py after the C12 `fix:` commits); the table of
+keyword-bindable parameter names on the de-serialisation call path is generated from the source
+(EkwVerif/Gen/ExportParams.lean).
 -/
 import EkwVerif.Model.Export
+import EkwVerif.Gen.ExportParams
 
 namespace EkwVerif.Export
+
+/-- the input names `deserialise` cannot take (generated from the source) -/
+abbrev R : List String := EkwVerif.Gen.deserReserved
 
 /-- parents before children: every input refers to an existing output of an earlier node -/
 def topoFrom (pre : List Node) : List Node → Bool
@@ -16,40 +22,189 @@ def topoFrom (pre : List Node) : List Node → Bool
       | some p => decide (i.2.out ∈ p.outputs)) && topoFrom (pre ++ [n]) rest
 
 /-- A graph with unique node names, given as the list of exactly its nodes in a topological
-order (any acyclic Python `Graph` with unique names has such a presentation). -/
+order (any acyclic Python `Graph` with unique names has such a presentation), whose nodes can be
+built by the `Node` constructor: inputs are keyword arguments of `Node.__init__`, so no input is
+called like one of its own parameters (`Node("n", name=…)` is a TypeError, `Node("n", payload=p)`
+sets the payload). -/
 structure WF (g : Graph) : Prop where
   names : (g.nodes.map (·.name)).Nodup
   topo : topoFrom [] g.nodes = true
   inputNames : ∀ n ∈ g.nodes, (n.inputs.map (·.1)).Nodup      -- `inputs` is a dict
   trim : (graphNodes g).length = g.nodes.length                -- every listed node is reachable from the sinks
+  ctor : ∀ n ∈ g.nodes, ∀ i ∈ n.inputs, i.1 ∉ EkwVerif.Gen.nodeInitKw
 
-def normNode (n : Node) : Node := { n with payload := normPV n.payload }
+/-- the payload a node gets back when the round trip maps serialised payloads by `f` -/
+def rp (f : PV → PV) (p : PV) : PV := if isNone p then .none else f p
 
-/-- payloads that JSON represents faithfully (no tuples anywhere inside) -/
-def Faithful (g : Graph) : Prop := ∀ n ∈ g.nodes, normPV n.payload = n.payload
+/-- the node record that comes back -/
+def mp (f : PV → PV) (n : Node) : Node := { n with payload := rp f n.payload }
+
+def normNode (n : Node) : Node := mp (normPV ∘ hookSer) n
+
+/-! #### decidable classes of payloads -/
+
+/-- the payload object has a `serialise` method -/
+def isHook : PV → Bool
+  | .hook _ _ => true
+  | _ => false
+
+/-- the payload IS a NaN -/
+def isNaN : PV → Bool
+  | .float true _ => true
+  | _ => false
+
+mutual
+/-- a NaN somewhere in the value -/
+def hasNaN : PV → Bool
+  | .float nan _ => nan
+  | .hook _ s => hasNaN s
+  | .list l => hasNaNL l
+  | .tuple l => hasNaNL l
+  | .dict d => hasNaND d
+  | _ => false
+def hasNaNL : List PV → Bool
+  | [] => false
+  | v :: vs => hasNaN v || hasNaNL vs
+def hasNaND : List (Key × PV) → Bool
+  | [] => false
+  | (_, v) :: r => hasNaN v || hasNaND r
+end
+
+mutual
+/-- every opaque object in the value is pickled by reference (no lambda, closure, instance) -/
+def byRefOnly : PV → Bool
+  | .atom byRef _ => byRef
+  | .hook _ _ => false
+  | .list l => byRefOnlyL l
+  | .tuple l => byRefOnlyL l
+  | .dict d => byRefOnlyD d
+  | _ => true
+def byRefOnlyL : List PV → Bool
+  | [] => true
+  | v :: vs => byRefOnly v && byRefOnlyL vs
+def byRefOnlyD : List (Key × PV) → Bool
+  | [] => true
+  | (_, v) :: r => byRefOnly v && byRefOnlyD r
+end
+
+/-- no payload object has a `serialise` method -/
+def NoHook (g : Graph) : Prop := ∀ n ∈ g.nodes, isHook n.payload = false
+
+/-- no payload is a NaN (NaNs inside containers are allowed) -/
+def NoTopNaN (g : Graph) : Prop := ∀ n ∈ g.nodes, isNaN n.payload = false
+
+/-- no NaN anywhere in a payload -/
+def NoNaN (g : Graph) : Prop := ∀ n ∈ g.nodes, hasNaN n.payload = false
+
+/-- every opaque object in a payload is one dill pickles by reference -/
+def ByRefOnly (g : Graph) : Prop := ∀ n ∈ g.nodes, byRefOnly n.payload = true
+
+/-- payloads that JSON represents faithfully: `json.dumps` accepts them and reading back gives an
+EQUAL value (no tuples, no non-string or clashing keys, no NaN) -/
+structure Faithful (g : Graph) : Prop where
+  fix : ∀ n ∈ g.nodes, normPV n.payload = n.payload
+  nan : NoNaN g
+
+instance (g : Graph) : Decidable (NoHook g) := by unfold NoHook; infer_instance
+instance (g : Graph) : Decidable (NoTopNaN g) := by unfold NoTopNaN; infer_instance
+instance (g : Graph) : Decidable (NoNaN g) := by unfold NoNaN; infer_instance
+instance (g : Graph) : Decidable (ByRefOnly g) := by unfold ByRefOnly; infer_instance
 
 namespace Aux
 
-/-! #### payload equality is reflexive -/
+/-! #### payload equality -/
 
 mutual
-theorem pvEq_refl : ∀ p, pvEq p p = true
-  | .none => by simp [pvEq]
-  | .bool a => by simp [pvEq]
-  | .int a => by simp [pvEq]
-  | .str a => by simp [pvEq]
-  | .list a => by simp [pvEq, pvEqL_refl a]
-  | .tuple a => by simp [pvEq, pvEqL_refl a]
-  | .dict a => by simp [pvEq, pvEqD_refl a]
-theorem pvEqL_refl : ∀ l, pvEqL l l = true
+theorem pvEqIn_refl_shared : ∀ p, pvEqIn true p p = true
+  | .none => by simp [pvEqIn]
+  | .bool a => by simp [pvEqIn]
+  | .int a => by simp [pvEqIn]
+  | .str a => by simp [pvEqIn]
+  | .float n r => by simp [pvEqIn]
+  | .atom b i => by simp [pvEqIn]
+  | .hook i s => by simp [pvEqIn]
+  | .list a => by simp [pvEqIn, pvEqL_refl_shared a]
+  | .tuple a => by simp [pvEqIn, pvEqL_refl_shared a]
+  | .dict a => by simp [pvEqIn, pvEqD_refl_shared a]
+theorem pvEqL_refl_shared : ∀ l, pvEqL true l l = true
   | [] => by simp [pvEqL]
-  | a :: as => by simp [pvEqL, pvEq_refl a, pvEqL_refl as]
-theorem pvEqD_refl : ∀ l, pvEqD l l = true
+  | a :: as => by simp [pvEqL, pvEqIn_refl_shared a, pvEqL_refl_shared as]
+theorem pvEqD_refl_shared : ∀ l, pvEqD true l l = true
   | [] => by simp [pvEqD]
-  | (k, a) :: as => by simp [pvEqD, pvEq_refl a, pvEqD_refl as]
+  | (k, a) :: as => by simp [pvEqD, pvEqIn_refl_shared a, pvEqD_refl_shared as]
 end
 
-/-! #### the generic encoder: `serialise` is `encode true id`, its JSON image `encode false normPV` -/
+mutual
+theorem pvEqIn_refl : ∀ p, hasNaN p = false → pvEqIn false p p = true
+  | .none, _ => by simp [pvEqIn]
+  | .bool a, _ => by simp [pvEqIn]
+  | .int a, _ => by simp [pvEqIn]
+  | .str a, _ => by simp [pvEqIn]
+  | .float n r, h => by simp [hasNaN] at h; simp [pvEqIn, h]
+  | .atom b i, _ => by simp [pvEqIn]
+  | .hook i s, _ => by simp [pvEqIn]
+  | .list a, h => by simp only [hasNaN] at h; simp [pvEqIn, pvEqL_refl a h]
+  | .tuple a, h => by simp only [hasNaN] at h; simp [pvEqIn, pvEqL_refl a h]
+  | .dict a, h => by simp only [hasNaN] at h; simp [pvEqIn, pvEqD_refl a h]
+theorem pvEqL_refl : ∀ l, hasNaNL l = false → pvEqL false l l = true
+  | [], _ => by simp [pvEqL]
+  | a :: as, h => by
+    simp only [hasNaNL, Bool.or_eq_false_iff] at h
+    simp [pvEqL, pvEqIn_refl a h.1, pvEqL_refl as h.2]
+theorem pvEqD_refl : ∀ l, hasNaND l = false → pvEqD false l l = true
+  | [], _ => by simp [pvEqD]
+  | (k, a) :: as, h => by
+    simp only [hasNaND, Bool.or_eq_false_iff] at h
+    simp [pvEqD, pvEqIn_refl a h.1, pvEqD_refl as h.2]
+end
+
+/-- `p == p` holds on the dict path (shared objects) unless `p` is itself a NaN -/
+theorem pvEq_refl_shared (p : PV) (h : isNaN p = false) : pvEq true p p = true := by
+  cases p with
+  | float n r => cases n <;> simp_all [pvEq, isNaN]
+  | _ => simp [pvEq, pvEqIn_refl_shared]
+
+/-- `p == q` for a structurally identical copy `q` of `p` made of new objects unless a NaN occurs -/
+theorem pvEq_refl (p : PV) (h : hasNaN p = false) : pvEq false p p = true := by
+  cases p with
+  | float n r => simp [hasNaN] at h; simp [pvEq, h]
+  | _ => simp only [pvEq]; exact pvEqIn_refl _ h
+
+theorem isNaN_of_hasNaN (p : PV) (h : hasNaN p = false) : isNaN p = false := by
+  cases p with
+  | float n r => cases n <;> simp_all [hasNaN, isNaN]
+  | _ => simp [isNaN]
+
+mutual
+/-- dill gives the very same value back when every opaque object is pickled by reference -/
+theorem dillPV_id (fresh : Nat → Nat) : ∀ p, byRefOnly p = true → dillPV fresh p = p
+  | .none, _ => by simp [dillPV]
+  | .bool a, _ => by simp [dillPV]
+  | .int a, _ => by simp [dillPV]
+  | .str a, _ => by simp [dillPV]
+  | .float n r, _ => by simp [dillPV]
+  | .atom b i, h => by simp [byRefOnly] at h; simp [dillPV, h]
+  | .hook i s, h => by simp [byRefOnly] at h
+  | .list a, h => by simp only [byRefOnly] at h; simp [dillPV, dillL_id fresh a h]
+  | .tuple a, h => by simp only [byRefOnly] at h; simp [dillPV, dillL_id fresh a h]
+  | .dict a, h => by simp only [byRefOnly] at h; simp [dillPV, dillD_id fresh a h]
+theorem dillL_id (fresh : Nat → Nat) : ∀ l, byRefOnlyL l = true → dillL fresh l = l
+  | [], _ => by simp [dillL]
+  | a :: as, h => by
+    simp only [byRefOnlyL, Bool.and_eq_true] at h
+    simp [dillL, dillPV_id fresh a h.1, dillL_id fresh as h.2]
+theorem dillD_id (fresh : Nat → Nat) : ∀ l, byRefOnlyD l = true → dillD fresh l = l
+  | [], _ => by simp [dillD]
+  | (k, a) :: as, h => by
+    simp only [byRefOnlyD, Bool.and_eq_true] at h
+    simp [dillD, dillPV_id fresh a h.1, dillD_id fresh as h.2]
+end
+
+theorem hookSer_id (p : PV) (h : isHook p = false) : hookSer p = p := by
+  cases p <;> simp_all [hookSer, isHook]
+
+/-! #### the generic encoder: `serialise` is `encode true hookSer`, its JSON image
+`encode false (normPV ∘ hookSer)`, its dill image `encode true (d ∘ hookSer)` -/
 
 def encRef (tup : Bool) (s : Src) : Ref := if s.out = defaultOutput then .bare s.parent else .pair tup s.parent s.out
 
@@ -60,39 +215,30 @@ def encNode (tup : Bool) (f : PV → PV) (n : Node) : SNode :=
 
 def encode (tup : Bool) (f : PV → PV) (l : List Node) : List (String × SNode) := l.map (fun n => (n.name, encNode tup f n))
 
-/-- the payload a node gets back -/
-def rp (f : PV → PV) (p : PV) : PV := if isNone p then .none else f p
+theorem rp_fix (f : PV → PV) (p : PV) (h : f p = p) : rp f p = p := by
+  cases p <;> simp_all [rp, isNone]
 
-def mp (f : PV → PV) (n : Node) : Node := { n with payload := rp f n.payload }
+theorem mp_fix (f : PV → PV) (n : Node) (h : f n.payload = n.payload) : mp f n = n := by
+  simp [mp, rp_fix f _ h]
 
-theorem rp_id (p : PV) : rp id p = p := by
-  cases p <;> simp [rp, isNone]
-
-theorem rp_norm (p : PV) : rp normPV p = normPV p := by
-  cases p <;> simp [rp, isNone, normPV]
-
-theorem mp_id (n : Node) : mp id n = n := by
-  simp [mp, rp_id]
-
-theorem mp_norm (n : Node) : mp normPV n = normNode n := by
-  simp [mp, normNode, rp_norm]
-
-theorem map_mp_id (l : List Node) : l.map (mp id) = l := by
+theorem map_mp_fix (f : PV → PV) (l : List Node) (h : ∀ n ∈ l, f n.payload = n.payload) : l.map (mp f) = l := by
   induction l with
   | nil => rfl
-  | cons a l ih => simp [mp_id, ih]
+  | cons a l ih =>
+    simp only [List.map_cons, mp_fix f a (h a (by simp))]
+    rw [ih (fun n hn => h n (by simp [hn]))]
 
-theorem serialise_eq (l : List Node) : l.map (fun n => (n.name, serNode n)) = encode true id l := by
+theorem serialise_eq (l : List Node) : l.map (fun n => (n.name, serNode n)) = encode true hookSer l := by
   simp only [encode]
   apply List.map_congr_left
   intro n _
-  simp only [serNode, encNode, serSrc, encRef, id]
+  simp only [serNode, encNode, serSrc, encRef]
 
-theorem jsonNorm_encode (l : List Node) : jsonNorm (encode true id l) = encode false normPV l := by
+theorem jsonNorm_encode (l : List Node) : jsonNorm (encode true hookSer l) = encode false (normPV ∘ hookSer) l := by
   simp only [jsonNorm, encode, List.map_map]
   apply List.map_congr_left
   intro n _
-  simp only [Function.comp, encNode, List.map_map, id]
+  simp only [Function.comp, encNode, List.map_map]
   congr 1
   congr 1
   · apply List.map_congr_left
@@ -100,6 +246,15 @@ theorem jsonNorm_encode (l : List Node) : jsonNorm (encode true id l) = encode f
     simp only [Function.comp, encRef]
     split <;> simp [normRef]
   · cases h : isNone n.payload <;> simp
+
+theorem fileData_encode (d : PV → PV) (l : List Node) : fileData d (encode true hookSer l) = encode true (d ∘ hookSer) l := by
+  simp only [fileData, encode, List.map_map]
+  apply List.map_congr_left
+  intro n _
+  simp only [Function.comp, encNode]
+  congr 1
+  congr 1
+  cases h : isNone n.payload <;> simp
 
 /-! #### rebuilding the node list -/
 
@@ -156,8 +311,9 @@ theorem resolveAll_enc (tup : Bool) (f : PV → PV) (pre : List Node) (ins : Lis
       simp only [hp, decide_eq_true_eq] at h1
       rw [resolve_enc tup f pre s p hp h1, ih h2]
 
-theorem deserLoop_encode (tup : Bool) (f : PV → PV) (rest pre : List Node) (h : topoFrom pre rest = true) :
-    deserLoop (pre.map (mp f)) (encode tup f rest) = .ok ((pre ++ rest).map (mp f)) := by
+theorem deserLoop_encode (res : List String) (tup : Bool) (f : PV → PV) (rest pre : List Node) (h : topoFrom pre rest = true)
+    (hres : ∀ n ∈ rest, ∀ i ∈ n.inputs, i.1 ∉ res) :
+    deserLoop res (pre.map (mp f)) (encode tup f rest) = .ok ((pre ++ rest).map (mp f)) := by
   induction rest generalizing pre with
   | nil => simp [encode, deserLoop]
   | cons n rest ih =>
@@ -165,7 +321,13 @@ theorem deserLoop_encode (tup : Bool) (f : PV → PV) (rest pre : List Node) (h 
     obtain ⟨h1, h2⟩ := h
     simp only [encode, List.map_cons, deserLoop, encNode]
     rw [resolveAll_enc tup f pre n.inputs h1]
-    have := ih (pre ++ [n]) h2
+    have hno : (n.inputs.map (fun i => (i.1, encRef tup i.2))).any (fun i => decide (i.1 ∈ res)) = false := by
+      rw [List.any_eq_false]
+      intro x hx
+      obtain ⟨i, hi, rfl⟩ := List.mem_map.mp hx
+      simpa using hres n (by simp) i hi
+    simp only [hno]
+    have := ih (pre ++ [n]) h2 (fun m hm => hres m (by simp [hm]))
     simp only [List.map_append, List.map_cons, List.map_nil, List.append_assoc, List.singleton_append, encode, encNode] at this
     have hn : ({ name := n.name, outputs := n.outputs,
                  payload := (if isNone n.payload = true then none else some (f n.payload)).getD PV.none,
@@ -173,8 +335,43 @@ theorem deserLoop_encode (tup : Bool) (f : PV → PV) (rest pre : List Node) (h 
       simp only [mp, rp]
       cases hh : isNone n.payload <;> simp
     simp only [hn]
+    simp only [Bool.false_eq_true, ↓reduceIte]
     rw [this]
     simp
+
+/-- … and an input of a reserved name anywhere makes the loop end in `TypeError` -/
+theorem deserLoop_encode_err (res : List String) (tup : Bool) (f : PV → PV) (rest pre : List Node) (h : topoFrom pre rest = true)
+    (hbad : ∃ n ∈ rest, ∃ i ∈ n.inputs, i.1 ∈ res) :
+    deserLoop res (pre.map (mp f)) (encode tup f rest) = .error .typeError := by
+  induction rest generalizing pre with
+  | nil => obtain ⟨n, hn, _⟩ := hbad; cases hn
+  | cons n rest ih =>
+    simp only [topoFrom, Bool.and_eq_true] at h
+    obtain ⟨h1, h2⟩ := h
+    simp only [encode, List.map_cons, deserLoop, encNode]
+    rw [resolveAll_enc tup f pre n.inputs h1]
+    by_cases hany : (n.inputs.map (fun i => (i.1, encRef tup i.2))).any (fun i => decide (i.1 ∈ res)) = true
+    · simp only [hany, ↓reduceIte]
+    · have hno : ∀ i ∈ n.inputs, i.1 ∉ res := by
+        intro i hi hx
+        apply hany
+        rw [List.any_eq_true]
+        exact ⟨(i.1, encRef tup i.2), List.mem_map_of_mem hi, by simpa using hx⟩
+      have hbad' : ∃ m ∈ rest, ∃ i ∈ m.inputs, i.1 ∈ res := by
+        obtain ⟨m, hm, i, hi, hx⟩ := hbad
+        rcases List.mem_cons.mp hm with rfl | hm
+        · exact absurd hx (hno i hi)
+        · exact ⟨m, hm, i, hi, hx⟩
+      have := ih (pre ++ [n]) h2 hbad'
+      simp only [List.map_append, List.map_cons, List.map_nil, encode, encNode] at this
+      have hn : ({ name := n.name, outputs := n.outputs,
+                   payload := (if isNone n.payload = true then none else some (f n.payload)).getD PV.none,
+                   inputs := n.inputs } : Node) = mp f n := by
+        simp only [mp, rp]
+        cases hh : isNone n.payload <;> simp
+      simp only [hany, hn]
+      simp only [Bool.false_eq_true, ↓reduceIte]
+      exact this
 
 theorem topoFrom_map_mp (f : PV → PV) (rest pre : List Node) (h : topoFrom pre rest = true) :
     topoFrom (pre.map (mp f)) (rest.map (mp f)) = true := by
@@ -312,9 +509,10 @@ theorem parents_map_mp (f : PV → PV) (l : List Node) : (l.map (mp f)).flatMap 
   | cons a l ih => simp only [List.map_cons, List.flatMap_cons, ih]; rfl
 
 /-- the whole round trip through the generic encoder -/
-theorem roundtrip (tup : Bool) (f : PV → PV) (l : List Node) (hn : (l.map (·.name)).Nodup) (ht : topoFrom [] l = true) :
-    ∃ g', deserialise (encode tup f l) = .ok g' ∧ g'.nodes = l.map (mp f) ∧ graphNodes g' = l.map (mp f) := by
-  have h1 := deserLoop_encode tup f l [] ht
+theorem roundtrip (res : List String) (tup : Bool) (f : PV → PV) (l : List Node) (hn : (l.map (·.name)).Nodup) (ht : topoFrom [] l = true)
+    (hres : ∀ n ∈ l, ∀ i ∈ n.inputs, i.1 ∉ res) :
+    ∃ g', deserialise res (encode tup f l) = .ok g' ∧ g'.nodes = l.map (mp f) ∧ graphNodes g' = l.map (mp f) := by
+  have h1 := deserLoop_encode res tup f l [] ht hres
   simp only [List.map_nil, List.nil_append] at h1
   refine ⟨{ nodes := l.map (mp f), sinks := ((l.map (mp f)).map (·.name)).filter (fun n => n ∉ consumed (encode tup f l)) }, ?_, rfl, ?_⟩
   · simp only [deserialise, h1]
@@ -324,7 +522,7 @@ theorem roundtrip (tup : Bool) (f : PV → PV) (l : List Node) (hn : (l.map (·.
     rw [parents_map_mp] at this
     exact this
 
-/-! #### `Graph.__eq__` accepts identical node sets -/
+/-! #### `Graph.__eq__` on a graph and its round-tripped image: exactly the payload comparisons -/
 
 theorem sameKeys_refl (l : List String) : sameKeys l l = true := by
   simp [sameKeys]
@@ -356,20 +554,78 @@ theorem lookupSrc_of_mem (l : List (String × Src)) (i : String × Src) (hn : (l
       · exfalso; apply hn.1; rw [h2]; exact List.mem_map_of_mem h
       · simp only [h2, ↓reduceIte]; exact ih hn.2 h
 
-theorem nodeEq_refl (n : Node) (hn : (n.inputs.map (·.1)).Nodup) : nodeEq n n = true := by
-  simp only [nodeEq, beq_self_eq_true, sameKeys_refl, pvEq_refl, Bool.and_true, Bool.true_and]
+theorem and_left_true (a b : Bool) (h : a = true) : (a && b) = b := by simp [h]
+
+/-- a node against its image: everything but the payload comparison is true -/
+theorem nodeEq_mp_left (sh : Bool) (f : PV → PV) (n : Node) (hn : (n.inputs.map (·.1)).Nodup) :
+    nodeEq sh (mp f n) n = pvEq sh (rp f n.payload) n.payload := by
+  simp only [nodeEq, mp, beq_self_eq_true, sameKeys_refl, Bool.true_and]
+  refine and_left_true _ _ ?_
   rw [List.all_eq_true]
   intro i hi
   rw [lookupSrc_of_mem n.inputs i hn hi]
   simp
 
-theorem graphEq_of_same (a b : Graph) (l : List Node) (ha : graphNodes a = l) (hb : graphNodes b = l)
-    (hn : (l.map (·.name)).Nodup) (hi : ∀ n ∈ l, (n.inputs.map (·.1)).Nodup) : graphEq a b = true := by
-  simp only [graphEq, ha, hb, sameKeys_refl, Bool.true_and]
+theorem nodeEq_mp_right (sh : Bool) (f : PV → PV) (n : Node) (hn : (n.inputs.map (·.1)).Nodup) :
+    nodeEq sh n (mp f n) = pvEq sh n.payload (rp f n.payload) := by
+  simp only [nodeEq, mp, beq_self_eq_true, sameKeys_refl, Bool.true_and]
+  refine and_left_true _ _ ?_
   rw [List.all_eq_true]
+  intro i hi
+  rw [lookupSrc_of_mem n.inputs i hn hi]
+  simp
+
+theorem all_congr_mem {α} (l : List α) (p q : α → Bool) (h : ∀ x ∈ l, p x = q x) : l.all p = l.all q := by
+  induction l with
+  | nil => rfl
+  | cons a l ih =>
+    simp only [List.all_cons, h a (by simp)]
+    rw [ih (fun x hx => h x (by simp [hx]))]
+
+theorem graphEq_mapped_left (sh : Bool) (f : PV → PV) (a b : Graph) (l : List Node)
+    (ha : graphNodes a = l.map (mp f)) (hb : graphNodes b = l)
+    (hn : (l.map (·.name)).Nodup) (hi : ∀ n ∈ l, (n.inputs.map (·.1)).Nodup) :
+    graphEq sh a b = l.all (fun n => pvEq sh (rp f n.payload) n.payload) := by
+  simp only [graphEq, ha, hb, names_map_mp, sameKeys_refl, Bool.true_and, List.all_map]
+  apply all_congr_mem
   intro n hm
-  rw [findNode_of_mem l n hn hm]
-  exact nodeEq_refl n (hi n hm)
+  have : (mp f n).name = n.name := rfl
+  simp only [Function.comp, this, findNode_of_mem l n hn hm]
+  exact nodeEq_mp_left sh f n (hi n hm)
+
+theorem graphEq_mapped_right (sh : Bool) (f : PV → PV) (a b : Graph) (l : List Node)
+    (ha : graphNodes a = l.map (mp f)) (hb : graphNodes b = l)
+    (hn : (l.map (·.name)).Nodup) (hi : ∀ n ∈ l, (n.inputs.map (·.1)).Nodup) :
+    graphEq sh b a = l.all (fun n => pvEq sh n.payload (rp f n.payload)) := by
+  simp only [graphEq, ha, hb, names_map_mp, sameKeys_refl, Bool.true_and]
+  apply all_congr_mem
+  intro n hm
+  have hmem : mp f n ∈ l.map (mp f) := List.mem_map_of_mem hm
+  have hnd : ((l.map (mp f)).map (·.name)).Nodup := by rw [names_map_mp]; exact hn
+  have := findNode_of_mem (l.map (mp f)) (mp f n) hnd hmem
+  have hname : (mp f n).name = n.name := rfl
+  rw [hname] at this
+  simp only [this]
+  exact nodeEq_mp_right sh f n (hi n hm)
+
+/-- every name `deserialise` reserves is a parameter name of the `Node` constructor (a fact about the
+generated table, i.e. about the source) -/
+theorem reserved_ctor : ∀ x ∈ R, x ∈ EkwVerif.Gen.nodeInitKw := by decide
+
+theorem wf_res (g : Graph) (h : WF g) : ∀ n ∈ g.nodes, ∀ i ∈ n.inputs, i.1 ∉ R :=
+  fun n hn i hi hx => h.ctor n hn i hi (reserved_ctor _ hx)
+
+/-- the common core of the three round trips: `f` = what the path does to a serialised payload -/
+theorem trip (tup : Bool) (f : PV → PV) (sh : Bool) (g : Graph) (h : WF g) :
+    ∃ g', deserialise R (encode tup (f ∘ hookSer) g.nodes) = .ok g' ∧
+      g'.nodes = g.nodes.map (mp (f ∘ hookSer)) ∧ graphNodes g' = g'.nodes ∧
+      graphEq sh g' g = g.nodes.all (fun n => pvEq sh (rp (f ∘ hookSer) n.payload) n.payload) ∧
+      graphEq sh g g' = g.nodes.all (fun n => pvEq sh n.payload (rp (f ∘ hookSer) n.payload)) := by
+  have ht := trim_eq g h.trim
+  obtain ⟨g', h1, h2, h3⟩ := roundtrip R tup (f ∘ hookSer) g.nodes h.names h.topo (wf_res g h)
+  refine ⟨g', h1, h2, by rw [h3, h2], ?_, ?_⟩
+  · exact graphEq_mapped_left sh _ g' g g.nodes h3 ht h.names h.inputNames
+  · exact graphEq_mapped_right sh _ g' g g.nodes h3 ht h.names h.inputNames
 
 end Aux
 
@@ -377,78 +633,295 @@ open Aux
 
 /-! ### property theorems -/
 
-/-- **Nothing lost.**  For every well-formed graph — whether or not its terminal nodes have
-outputs, with any number of sinks, multi-output nodes, shared sub-expressions, or no node at
-all — `deserialise (serialise g)` succeeds, rebuilds exactly the node records of `g` (names,
-outputs, inputs, payloads), and every one of them is part of the resulting graph (reachable
-from the sinks `deserialise` chooses). -/
+/-- **The source keeps the inputs apart from its own parameters.**  Every input name that makes
+`deserialise` raise `TypeError` (a keyword-bindable parameter of `_deserialise_node`, of the default
+node factory or of `Node.__init__`, which receive the inputs as `**kwargs`) is a parameter name of
+`Node.__init__` itself, i.e. a name no node built by the constructor can have as an input.  Decided
+on the table generated from the source: a parameter such as `data` or `node_factory` that can be
+bound by keyword on that path makes this false. -/
+theorem c12_reserved_subset : ∀ x ∈ EkwVerif.Gen.deserReserved, x ∈ EkwVerif.Gen.nodeInitKw := Aux.reserved_ctor
+
+/-- **Exactly those names.**  A graph (unique names not even needed) one of whose nodes has an input
+called like a keyword-bindable parameter on the call path cannot be read back: `deserialise
+(serialise g)` raises `TypeError`.  Together with `c12_nothing_lost` (which needs only `∉ R`, see
+`Aux.trip`): the dict round trip succeeds iff no input name is in `R`; before the fix `R` held
+`data` and `node_factory`. -/
+theorem c12_reserved_raises (g : Graph) (ht : topoFrom [] g.nodes = true) (htrim : (graphNodes g).length = g.nodes.length)
+    (hbad : ∃ n ∈ g.nodes, ∃ i ∈ n.inputs, i.1 ∈ R) :
+    deserialise R (serialise g) = .error .typeError := by
+  have hte := trim_eq g htrim
+  have := deserLoop_encode_err R true hookSer g.nodes [] ht hbad
+  simp only [List.map_nil] at this
+  simp only [deserialise, serialise, hte, serialise_eq, this]
+
+/-- **Nothing lost (dict).**  For every well-formed graph — whether or not its terminal nodes have
+outputs, with any number of sinks, multi-output nodes, shared sub-expressions, any input names a
+node can have, or no node at all — `deserialise (serialise g)` succeeds, rebuilds every node
+record with its name, outputs and inputs, the payload being the original payload or, for a payload
+object with a `serialise()` method, that method's result; and every rebuilt node is part of the
+resulting graph (reachable from the sinks `deserialise` chooses).  Without such payload objects the
+records are identical. -/
 theorem c12_nothing_lost (g : Graph) (h : WF g) :
-    ∃ g', deserialise (serialise g) = .ok g' ∧ g'.nodes = g.nodes ∧ graphNodes g' = graphNodes g := by
+    ∃ g', deserialise R (serialise g) = .ok g' ∧ g'.nodes = g.nodes.map (mp hookSer) ∧ graphNodes g' = g'.nodes ∧
+      (NoHook g → g'.nodes = g.nodes ∧ graphNodes g' = graphNodes g) := by
   have ht := trim_eq g h.trim
-  obtain ⟨g', h1, h2, h3⟩ := roundtrip true id g.nodes h.names h.topo
-  refine ⟨g', ?_, ?_, ?_⟩
+  obtain ⟨g', h1, h2, h3, _, _⟩ := trip true id true g h
+  refine ⟨g', ?_, h2, h3, ?_⟩
   · simp only [serialise, ht, serialise_eq]; exact h1
-  · rw [h2, map_mp_id]
-  · rw [h3, map_mp_id, ht]
+  · intro hh
+    have : g.nodes.map (mp (id ∘ hookSer)) = g.nodes :=
+      map_mp_fix _ _ (fun n hn => hookSer_id _ (hh n hn))
+    refine ⟨by rw [h2, this], by rw [h3, h2, this, ht]⟩
 
-/-- **Dict round trip.**  `deserialise(serialise(g)) == g` (in both directions of `__eq__`). -/
-theorem c12_dict (g : Graph) (h : WF g) :
-    ∃ g', deserialise (serialise g) = .ok g' ∧ graphEq g' g = true ∧ graphEq g g' = true := by
-  obtain ⟨g', h1, _, h3⟩ := c12_nothing_lost g h
+/-- **Dict round trip, exactly.**  `deserialise(serialise(g)) == g` evaluates to the conjunction of
+the payload comparisons `hookSer p == p`, in either direction of `__eq__`: names, outputs, input
+names and references always agree. -/
+theorem c12_dict_exact (g : Graph) (h : WF g) :
+    ∃ g', deserialise R (serialise g) = .ok g' ∧
+      graphEq true g' g = g.nodes.all (fun n => pvEq true (rp hookSer n.payload) n.payload) ∧
+      graphEq true g g' = g.nodes.all (fun n => pvEq true n.payload (rp hookSer n.payload)) := by
   have ht := trim_eq g h.trim
+  obtain ⟨g', h1, _, _, h4, h5⟩ := trip true id true g h
+  refine ⟨g', ?_, h4, h5⟩
+  simp only [serialise, ht, serialise_eq]; exact h1
+
+/-- **Dict round trip.**  `deserialise(serialise(g)) == g` (in both directions of `__eq__`) for
+every well-formed graph none of whose payloads is an object with a `serialise()` method or a NaN.
+Both exclusions are needed: `c12_dict_hook_full_fails`, `c12_dict_full_fails`. -/
+theorem c12_dict_partial (g : Graph) (h : WF g) (hh : NoHook g) (hnan : NoTopNaN g) :
+    ∃ g', deserialise R (serialise g) = .ok g' ∧ graphEq true g' g = true ∧ graphEq true g g' = true := by
+  obtain ⟨g', h1, h4, h5⟩ := c12_dict_exact g h
+  have hp : ∀ n ∈ g.nodes, rp hookSer n.payload = n.payload :=
+    fun n hn => rp_fix _ _ (hookSer_id _ (hh n hn))
   refine ⟨g', h1, ?_, ?_⟩
-  · exact graphEq_of_same g' g g.nodes (by rw [h3, ht]) ht h.names h.inputNames
-  · exact graphEq_of_same g g' g.nodes ht (by rw [h3, ht]) h.names h.inputNames
+  · rw [h4, List.all_eq_true]; intro n hn; rw [hp n hn]; exact pvEq_refl_shared _ (hnan n hn)
+  · rw [h5, List.all_eq_true]; intro n hn; rw [hp n hn]; exact pvEq_refl_shared _ (hnan n hn)
 
-/-- **JSON round trip.**  `from_json(to_json(g))` succeeds and rebuilds every node with its
-payload JSON-normalised (tuples read back as lists), all of them reachable; for payloads JSON
-represents faithfully the node records are identical and the graphs are `==`. -/
+/-- a single node whose payload is NaN -/
+def exNaN : Graph := { nodes := [{ name := "a", outputs := ["0"], payload := .float true "nan", inputs := [] }], sinks := ["a"] }
+
+/-- a single node whose payload object has a `serialise()` method returning `{"k": 1}` -/
+def exHook : Graph :=
+  { nodes := [{ name := "a", outputs := ["0"], payload := .hook 0 (.dict [(.str "k", .int 1)]), inputs := [] }], sinks := ["a"] }
+
+theorem exNaN_wf : WF exNaN := ⟨by decide, by decide, by decide, by decide, by decide⟩
+theorem exHook_wf : WF exHook := ⟨by decide, by decide, by decide, by decide, by decide⟩
+
+/-- The dict round trip is NOT `==` for every well-formed graph: a NaN payload is not equal to
+itself (`nan != nan`), so the graph is not even equal to itself. -/
+theorem c12_dict_full_fails :
+    ¬ (∀ g, WF g → NoHook g → ∃ g', deserialise R (serialise g) = .ok g' ∧ graphEq true g' g = true) := by
+  intro hall
+  obtain ⟨g', h1, h2⟩ := hall exNaN exNaN_wf (by decide)
+  obtain ⟨g'', h1', h4, _⟩ := c12_dict_exact exNaN exNaN_wf
+  rw [h1] at h1'
+  cases h1'
+  rw [h4] at h2
+  revert h2
+  decide
+
+/-- … nor when a payload object has a `serialise()` method: the node comes back with the method's
+result as its payload, with the default node factory nothing turns it back into the object. -/
+theorem c12_dict_hook_full_fails :
+    ¬ (∀ g, WF g → NoTopNaN g → ∃ g', deserialise R (serialise g) = .ok g' ∧ graphEq true g' g = true) := by
+  intro hall
+  obtain ⟨g', h1, h2⟩ := hall exHook exHook_wf (by decide)
+  obtain ⟨g'', h1', h4, _⟩ := c12_dict_exact exHook exHook_wf
+  rw [h1] at h1'
+  cases h1'
+  rw [h4] at h2
+  revert h2
+  decide
+
+/-- **The node factory is the way back for payload objects with a `serialise()` method.**  If the
+factory handed to `deserialise` rebuilds payloads by `inv` and `inv` inverts `serialise()` on the
+payloads of `g`, the node records come back identical and the graphs are `==` (payloads that are
+not NaN). -/
+theorem c12_hook_factory (g : Graph) (h : WF g) (inv : PV → PV)
+    (hinv : ∀ n ∈ g.nodes, inv (rp hookSer n.payload) = n.payload) :
+    ∃ g', deserialise R (serialise g) = .ok g' ∧ (withFactory inv g').nodes = g.nodes ∧
+      graphNodes (withFactory inv g') = (withFactory inv g').nodes := by
+  obtain ⟨g', h1, h2, h3, _⟩ := c12_nothing_lost g h
+  refine ⟨g', h1, ?_, ?_⟩
+  · simp only [withFactory, h2, List.map_map]
+    have : ∀ n ∈ g.nodes, ((fun n : Node => { n with payload := inv n.payload }) ∘ mp hookSer) n = n := by
+      intro n hn
+      simp only [Function.comp, mp, hinv n hn]
+    rw [List.map_congr_left this]; simp
+  · -- the factory changes payloads only: reachability is that of g'
+    have hsw : ∀ (l : List Node) (need : List String),
+        sweep (l.map (fun n : Node => { n with payload := inv n.payload })) need =
+          ((sweep l need).1.map (fun n : Node => { n with payload := inv n.payload }), (sweep l need).2) := by
+      intro l need
+      induction l with
+      | nil => simp [sweep]
+      | cons a l ih =>
+        simp only [List.map_cons, sweep, ih]
+        split <;> simp [parents]
+    simp only [graphNodes, withFactory, hsw]
+    have : (sweep g'.nodes g'.sinks).1 = g'.nodes := h3
+    rw [this]
+
+/-- **JSON round trip.**  When `json.dumps` accepts the payloads, `from_json(to_json(g))` succeeds
+and rebuilds every node with its payload JSON-normalised (tuples read back as lists, keys as
+strings), all of them reachable; `==` is exactly the conjunction of the payload comparisons; for
+payloads JSON represents faithfully the node records are identical and the graphs are `==`.  When
+`json.dumps` does not accept a payload, `to_json` raises `TypeError`. -/
 theorem c12_json (g : Graph) (h : WF g) :
-    ∃ g', deserialise (jsonNorm (serialise g)) = .ok g' ∧ g'.nodes = g.nodes.map normNode ∧
+    (jsonOk (serialise g) = false → jsonTrip R g = .error .typeError) ∧
+    (jsonOk (serialise g) = true → ∃ g', jsonTrip R g = .ok g' ∧ g'.nodes = g.nodes.map normNode ∧
       graphNodes g' = g'.nodes ∧
-      (Faithful g → g'.nodes = g.nodes ∧ graphEq g' g = true ∧ graphEq g g' = true) := by
+      graphEq false g' g = g.nodes.all (fun n => pvEq false (normNode n).payload n.payload) ∧
+      graphEq false g g' = g.nodes.all (fun n => pvEq false n.payload (normNode n).payload) ∧
+      (NoHook g → Faithful g → g'.nodes = g.nodes ∧ graphEq false g' g = true ∧ graphEq false g g' = true)) := by
   have ht := trim_eq g h.trim
-  obtain ⟨g', h1, h2, h3⟩ := roundtrip false normPV g.nodes h.names h.topo
-  have hm : g.nodes.map (mp normPV) = g.nodes.map normNode := by
-    apply List.map_congr_left; intro n _; exact mp_norm n
-  refine ⟨g', ?_, ?_, ?_, ?_⟩
-  · simp only [serialise, ht, serialise_eq, jsonNorm_encode]; exact h1
-  · rw [h2, hm]
-  · rw [h3, h2]
-  · intro hf
-    have hid : g.nodes.map normNode = g.nodes := by
-      have : ∀ n ∈ g.nodes, normNode n = n := by
+  constructor
+  · intro hj; simp [jsonTrip, hj]
+  · intro hj
+    obtain ⟨g', h1, h2, h3, h4, h5⟩ := trip false normPV false g h
+    refine ⟨g', ?_, h2, h3, h4, h5, ?_⟩
+    · simp only [jsonTrip, hj, ↓reduceIte]
+      simp only [serialise, ht, serialise_eq, jsonNorm_encode]; exact h1
+    · intro hh hf
+      have hfix : ∀ n ∈ g.nodes, (normPV ∘ hookSer) n.payload = n.payload := by
         intro n hn
-        simp only [normNode, hf n hn]
-      rw [List.map_congr_left this]; simp
-    have hg' : graphNodes g' = g.nodes := by rw [h3, hm, hid]
-    refine ⟨by rw [h2, hm, hid], ?_, ?_⟩
-    · exact graphEq_of_same g' g g.nodes hg' ht h.names h.inputNames
-    · exact graphEq_of_same g g' g.nodes ht hg' h.names h.inputNames
+        simp only [Function.comp, hookSer_id _ (hh n hn), hf.fix n hn]
+      have hid : g.nodes.map (mp (normPV ∘ hookSer)) = g.nodes := map_mp_fix _ _ hfix
+      refine ⟨by rw [h2, hid], ?_, ?_⟩
+      · rw [h4, List.all_eq_true]; intro n hn
+        rw [rp_fix _ _ (hfix n hn)]; exact pvEq_refl _ (hf.nan n hn)
+      · rw [h5, List.all_eq_true]; intro n hn
+        rw [rp_fix _ _ (hfix n hn)]; exact pvEq_refl _ (hf.nan n hn)
+
+/-- **Cascade file round trip, dill being a parameter.**  Let `d` be what `dill.load ∘ dill.dump`
+does to one payload value (names, output lists and references, i.e. str / list / tuple of str, are
+rebuilt exactly).  Then `Cascade.from_serialised` after `Cascade.serialise` succeeds on every
+well-formed graph, rebuilds every node with its name, outputs and inputs and with the payload
+`d (hookSer p)`, all of them reachable, and `==` is exactly the conjunction of the payload
+comparisons. -/
+theorem c12_file (d : PV → PV) (g : Graph) (h : WF g) :
+    ∃ g', fileTrip R d g = .ok g' ∧ g'.nodes = g.nodes.map (mp (d ∘ hookSer)) ∧ graphNodes g' = g'.nodes ∧
+      graphEq false g' g = g.nodes.all (fun n => pvEq false (rp (d ∘ hookSer) n.payload) n.payload) ∧
+      graphEq false g g' = g.nodes.all (fun n => pvEq false n.payload (rp (d ∘ hookSer) n.payload)) := by
+  have ht := trim_eq g h.trim
+  obtain ⟨g', h1, h2, h3, h4, h5⟩ := trip true d false g h
+  refine ⟨g', ?_, h2, h3, h4, h5⟩
+  simp only [fileTrip, serialise, ht, serialise_eq, fileData_encode]; exact h1
+
+/-- **Cascade file round trip with dill's structural behaviour** (`dillPV`: an object pickled by
+value comes back as a new object): identical node records and `==` both ways for every
+well-formed graph whose payloads hold no object with a `serialise()` method, no NaN and only
+opaque objects that dill pickles by reference (module-level functions, builtins).  Each exclusion
+is needed: `c12_file_full_fails`. -/
+theorem c12_file_partial (fresh : Nat → Nat) (g : Graph) (h : WF g) (hb : ByRefOnly g) (hnan : NoNaN g) :
+    ∃ g', fileTrip R (dillPV fresh) g = .ok g' ∧ g'.nodes = g.nodes ∧ graphNodes g' = g.nodes ∧
+      graphEq false g' g = true ∧ graphEq false g g' = true := by
+  obtain ⟨g', h1, h2, h3, h4, h5⟩ := c12_file (dillPV fresh) g h
+  have hh : NoHook g := by
+    intro n hn
+    have := hb n hn
+    cases hp : n.payload <;> simp_all [byRefOnly, isHook]
+  have hfix : ∀ n ∈ g.nodes, (dillPV fresh ∘ hookSer) n.payload = n.payload := by
+    intro n hn
+    simp only [Function.comp, hookSer_id _ (hh n hn), dillPV_id fresh _ (hb n hn)]
+  have hid : g.nodes.map (mp (dillPV fresh ∘ hookSer)) = g.nodes := map_mp_fix _ _ hfix
+  refine ⟨g', h1, by rw [h2, hid], by rw [h3, h2, hid], ?_, ?_⟩
+  · rw [h4, List.all_eq_true]; intro n hn
+    rw [rp_fix _ _ (hfix n hn)]; exact pvEq_refl _ (hnan n hn)
+  · rw [h5, List.all_eq_true]; intro n hn
+    rw [rp_fix _ _ (hfix n hn)]; exact pvEq_refl _ (hnan n hn)
+
+/-- a single node whose payload is a fluent-style tuple (function, args, kwargs) with a function
+dill pickles by value (a lambda) -/
+def exLambda : Graph :=
+  { nodes := [{ name := "a", outputs := ["0"], payload := .tuple [.atom false 7, .list [.str "input0"], .dict []], inputs := [] }], sinks := ["a"] }
+
+/-- a single node whose payload holds a NaN inside a list: equal to itself through the dict (same
+objects), not through the file (new objects) -/
+def exNaNIn : Graph := { nodes := [{ name := "a", outputs := ["0"], payload := .list [.float true "nan"], inputs := [] }], sinks := ["a"] }
+
+theorem exLambda_wf : WF exLambda := ⟨by decide, by decide, by decide, by decide, by decide⟩
+theorem exNaNIn_wf : WF exNaNIn := ⟨by decide, by decide, by decide, by decide, by decide⟩
+
+/-- The file round trip is NOT `==` for every well-formed graph, whatever new identities dill
+hands out (`fresh id ≠ id`): a payload holding a lambda comes back holding a different function
+object (here `NoNaN` holds); a payload holding a NaN comes back holding another NaN (here
+`ByRefOnly` holds). -/
+theorem c12_file_full_fails (fresh : Nat → Nat) (hf : ∀ i, fresh i ≠ i) :
+    (¬ ∀ g, WF g → NoNaN g → ∃ g', fileTrip R (dillPV fresh) g = .ok g' ∧ graphEq false g' g = true) ∧
+    (¬ ∀ g, WF g → ByRefOnly g → ∃ g', fileTrip R (dillPV fresh) g = .ok g' ∧ graphEq false g' g = true) := by
+  constructor
+  · intro hall
+    obtain ⟨g', h1, h2⟩ := hall exLambda exLambda_wf (by decide)
+    obtain ⟨g'', h1', _, _, h4, _⟩ := c12_file (dillPV fresh) exLambda exLambda_wf
+    rw [h1] at h1'
+    cases h1'
+    rw [h4] at h2
+    simp [exLambda, rp, isNone, hookSer, dillPV, dillL, dillD, pvEq, pvEqIn, pvEqL, hf 7] at h2
+  · intro hall
+    obtain ⟨g', h1, h2⟩ := hall exNaNIn exNaNIn_wf (by decide)
+    obtain ⟨g'', h1', _, _, h4, _⟩ := c12_file (dillPV fresh) exNaNIn exNaNIn_wf
+    rw [h1] at h1'
+    cases h1'
+    rw [h4] at h2
+    simp [exNaNIn, rp, isNone, hookSer, dillPV, dillL, pvEq, pvEqIn, pvEqL] at h2
 
 /-! ### non-vacuity -/
 
 /-- a (default output) → b (outputs x, y) → c (terminal WITH an output, tuple payload), d (terminal
-without outputs, consumes b.y and a): two sinks, a multi-output parent, a shared source -/
+without outputs, consumes b.y and a through inputs called `data` and `node_factory`): two sinks, a
+multi-output parent, a shared source -/
 def exG : Graph :=
   { nodes := [ { name := "a", outputs := ["0"], payload := .none, inputs := [] },
                { name := "b", outputs := ["x", "y"], payload := .int 3, inputs := [("in", ⟨"a", "0"⟩)] },
                { name := "c", outputs := ["0"], payload := .tuple [.str "f", .list [.int 1]], inputs := [("p", ⟨"b", "x"⟩)] },
-               { name := "d", outputs := [], payload := .dict [("k", .bool true)], inputs := [("p", ⟨"b", "y"⟩), ("q", ⟨"a", "0"⟩)] } ]
+               { name := "d", outputs := [], payload := .dict [(.str "k", .bool true)], inputs := [("data", ⟨"b", "y"⟩), ("node_factory", ⟨"a", "0"⟩)] } ]
     sinks := ["c", "d"] }
 
-example : WF exG := ⟨by decide, by decide, by decide, by decide⟩
-example : WF { nodes := [], sinks := [] } := ⟨by decide, by decide, by decide, by decide⟩
+/-- a fluent-style graph: payloads (function, args, kwargs) with module-level functions -/
+def exF : Graph :=
+  { nodes := [ { name := "src:1", outputs := ["0", "1"], payload := .tuple [.atom true 1, .list [.int 0, .float false "0x1.8p+0"], .dict []], inputs := [] },
+               { name := "sum:2", outputs := ["0"], payload := .tuple [.atom true 2, .list [.str "input0", .str "input1"], .dict [(.str "axis", .int 0)]],
+                 inputs := [("input0", ⟨"src:1", "0"⟩), ("input1", ⟨"src:1", "1"⟩)] } ]
+    sinks := ["sum:2"] }
+
+/-- a node with an input called `name` (only possible by writing to `Node.inputs` directly) -/
+def exBad : Graph :=
+  { nodes := [ { name := "a", outputs := ["0"], payload := .none, inputs := [] },
+               { name := "b", outputs := [], payload := .none, inputs := [("name", ⟨"a", "0"⟩)] } ]
+    sinks := ["b"] }
+
+example : deserialise R (serialise exBad) = .error .typeError :=
+  c12_reserved_raises exBad (by decide) (by decide) ⟨_, List.mem_cons_of_mem _ (List.mem_singleton.mpr rfl), _, List.mem_singleton.mpr rfl, by decide⟩
+example : WF exG := ⟨by decide, by decide, by decide, by decide, by decide⟩
+example : WF exF := ⟨by decide, by decide, by decide, by decide, by decide⟩
+example : WF { nodes := [], sinks := [] } := ⟨by decide, by decide, by decide, by decide, by decide⟩
+example : NoHook exG ∧ NoTopNaN exG ∧ NoNaN exF ∧ ByRefOnly exF := by decide
 -- the round trip keeps all four nodes, `c` (terminal with an output) included
-example : (match deserialise (serialise exG) with
-    | .ok g' => (graphNodes g').map (·.name) == ["a", "b", "c", "d"] && g'.sinks == ["c", "d"] && graphEq g' exG
+example : (match deserialise R (serialise exG) with
+    | .ok g' => (graphNodes g').map (·.name) == ["a", "b", "c", "d"] && g'.sinks == ["c", "d"] && graphEq true g' exG
     | .error _ => false) = true := by decide
 -- through JSON the tuple payload of `c` comes back as a list, so `==` is false for this graph
-example : (match deserialise (jsonNorm (serialise exG)) with
-    | .ok g' => (graphNodes g').map (·.name) == ["a", "b", "c", "d"] && !graphEq g' exG
+example : (match jsonTrip R exG with
+    | .ok g' => (graphNodes g').map (·.name) == ["a", "b", "c", "d"] && !graphEq false g' exG
     | .error _ => false) = true := by decide
--- a dict that refers to a missing parent / output is an error, as in Python
-example : (match deserialise [("b", { outputs := [], inputs := [("i", .bare "a")], payload := none })] with
+-- a fluent-style graph is not JSON-serialisable, and comes back `==` from the file
+example : (match jsonTrip R exF with | .error .typeError => true | _ => false) = true := by decide
+example : (match fileTrip R (dillPV (· + 100)) exF with
+    | .ok g' => graphEq false g' exF && graphEq false exF g'
+    | .error _ => false) = true := by decide
+-- a payload object with a `serialise()` method comes back as the method's result; a factory inverting it restores it
+example : (match deserialise R (serialise exHook) with
+    | .ok g' => g'.nodes.map (fun n => match n.payload with | .dict [(.str "k", .int 1)] => true | _ => false) == [true]
+    | .error _ => false) = true := by decide
+-- int keys become strings through JSON, a clashing key overwrites: {1: 4, "1": 3, None: 5} ↦ {"1": 3, "null": 5}
+example : (match normPV (.dict [(.int 1, .int 4), (.str "1", .int 3), (.none, .int 5)]) with
+    | .dict [(.str "1", .int 3), (.str "null", .int 5)] => true | _ => false) = true := by decide
+-- a dict that refers to a missing parent / output is an error, as in Python; so is an input called `name`
+example : (match deserialise R [("b", { outputs := [], inputs := [("i", .bare "a")], payload := none })] with
     | .error .keyError => true | _ => false) = true := by decide
+example : (match deserialise R [("a", { outputs := ["0"], inputs := [], payload := none }),
+                                ("b", { outputs := [], inputs := [("name", .bare "a")], payload := none })] with
+    | .error .typeError => true | _ => false) = true := by decide
 
 end EkwVerif.Export
